@@ -75,6 +75,7 @@ type ContractSet struct {
 	Imports map[string][]string
 	Source  string // "repo" or "mirror"
 	AllocLimits map[string]uint64 // element type -> largest make() length allowed
+	AllocLimitProps map[string][]string // the properties whose units the limit applies to (the directive's property tags)
 	Tables  map[string][]string   // dir -> package-level integer arrays computed by init(), dumped from the running program
 }
 
@@ -193,6 +194,10 @@ func (cs *ContractSet) parseFile(dir, file string) error {
 				return fmt.Errorf("%s:%d: bad alloclimit count", file, it.line)
 			}
 			cs.AllocLimits[f[0]] = n
+			if cs.AllocLimitProps == nil {
+				cs.AllocLimitProps = map[string][]string{}
+			}
+			cs.AllocLimitProps[f[0]] = append([]string{}, props...)
 		case "func":
 			finish()
 			cur = mk("func")
